@@ -129,6 +129,33 @@ func c09Run(c c09Case) Verdict {
 			} else if rs[0].Class() != 5 {
 				return fail(failf("starttls", "STARTTLS not available but answered %s", rs[0]))
 			}
+		case "starttls-fail":
+			// STARTTLS accepted, but the client then sends plaintext instead of
+			// a handshake: the upgrade fails and the connection stays insecure
+			if c.TLS != "starttls" || tls {
+				break
+			}
+			rs, _, e := exch("STARTTLS")
+			if e != "" || len(rs) != 1 || rs[0].Code != 220 {
+				return fail(failf("starttls", "STARTTLS answered %v %s", codes(rs), e))
+			}
+			rs, _, e = exch("this-is-not-a-tls-handshake")
+			if e != "" || len(rs) != 1 || rs[0].Class() == 2 {
+				return fail(failf("starttls", "plaintext instead of a TLS handshake answered %v %s", codes(rs), e))
+			}
+			cls["failed_handshake"] = true
+			// nothing was upgraded; whether the greeting survives is not
+			// specified here: greet again before going on
+			rs, _, e = exch(greetWord(c.LMTP) + " again")
+			if e != "" || len(rs) != 1 || rs[0].Code != 250 {
+				return fail(Verdict{Inconclusive: fmt.Sprintf("greeting after a failed handshake: %v %s", codes(rs), e)})
+			}
+			for _, l := range rs[0].Lines[1:] {
+				if strings.HasPrefix(l, "AUTH") && !c.InsecureAuth {
+					return fail(failf("auth-advertised", "AUTH advertised in plaintext after a failed TLS handshake: %q", rs[0].Lines))
+				}
+			}
+			greeted = true
 		case "auth":
 			if a.IR != nil && *a.IR == "" {
 				a.IR = nil // an empty token cannot be sent: it is "no initial response" ("=" is the empty one)
@@ -373,6 +400,9 @@ func c09Gen(t *rapid.T) c09Case {
 			c.Acts = append(c.Acts, genAuth())
 		case x == 6:
 			c.Acts = append(c.Acts, c09Act{Op: "noop"})
+		case x == 7 && rapid.IntRange(0, 2).Draw(t, "hsfail") == 0:
+			c.Acts = append(c.Acts, c09Act{Op: "starttls-fail"})
+			greeted = true
 		case x == 7:
 			c.Acts = append(c.Acts, c09Act{Op: "starttls"})
 			if c.TLS == "starttls" {
